@@ -361,7 +361,7 @@ Theorem to_app_transparent m cap chunk sc stream outs left :
   concat outs ++ left = stream.
 Proof.
   intros Hcap Hc Happ. unfold to_app.
-  destruct (sniff_then_reads cap stream (sc_tcp sc) (sc_copy sc) Hcap)
+  destruct (sniff_then_reads cap stream (sc_tcp sc) (sc_late sc) (sc_copy sc) Hcap)
     as (b1 & -> & _ & _ & _ & Hreads).
   destruct (breads cap (sc_copy sc) b1) as [[copied e1] b2] eqn:Eb.
   destruct (Hreads _ _ _ eq_refl) as [Hcopied _].
@@ -436,13 +436,12 @@ Proof.
     destruct (bread cap m b) as [[got e1] b1] eqn:E1.
     destruct (bread_spec cap m b got e1 b1 Hcap Hinv E1) as (Hrem & Hinv1 & _ & He1 & Hprog).
     destruct e1 as [e1|].
-    + intros [= <- <- <-]. destruct He1 as [|(_ & -> & Hr)]; [discriminate|].
-      rewrite Hr in Hrem. cbn [app] in Hrem. exact Hrem.
+    + intros [= <- <- <-]. destruct He1 as [|(_ & Hr)]; [discriminate|]. exact Hr.
     + destruct (breads cap ms b1) as [[l e2] b3] eqn:E2. intros [= <- <- <-].
       eapply IH; [exact Hcap|exact Hinv1|exact Hms'| |exact E2].
       destruct (remaining b) as [|x r] eqn:Er.
       * apply app_eq_nil in Hrem as [_ ->]. cbn. lia.
-      * destruct (Hprog Hm ltac:(discriminate)) as [Hg _].
+      * pose proof (Hprog Hm ltac:(discriminate)) as Hg.
         rewrite <- Hrem, app_length in Hlen. destruct got; [contradiction|].
         cbn [length] in Hlen. lia.
 Qed.
@@ -538,7 +537,7 @@ Proof.
   pose proof (to_app_transparent m cap chunk sc stream outs left Hcap Hc Happ E) as Ht.
   assert (Hleft : left = []).
   { unfold to_app in E.
-    destruct (sniff_then_reads cap stream (sc_tcp sc) (sc_copy sc) Hcap)
+    destruct (sniff_then_reads cap stream (sc_tcp sc) (sc_late sc) (sc_copy sc) Hcap)
       as (b1 & Hs & _ & Hinv1 & Hrem1 & Hreads).
     rewrite Hs in E.
     destruct (breads cap (sc_copy sc) b1) as [[copied e1] b2] eqn:Eb.
